@@ -9,7 +9,7 @@ from __future__ import annotations
 import struct
 from typing import Callable, Dict, List, Optional, Tuple
 
-from .expr import C, is_const, is_int_const, is_num_const, rowform
+from .expr import C, bounded_step, is_const, is_int_const, is_num_const, rowform
 
 Iv = Tuple[Optional[int], Optional[int]]
 TOP: Iv = (None, None)
@@ -112,8 +112,9 @@ class Intervals:
 
     def iv(self, e) -> Iv:
         if e not in self._rowformed:
-            # positional indexing into a comprehension / zip / enumerate is read as the element it stands for
-            r = rowform(e)
+            # positional indexing into a comprehension / zip / enumerate is read as the element it stands for;
+            # a step cut short at a bound is read as the saturating update it is
+            r = bounded_step(rowform(e))
             self._rowformed.add(r)
             if r != e:
                 return self.iv(r)
